@@ -37,6 +37,9 @@ func run(c *hlib.Ctx) {
 	for i := 0; i < n/4+1; i++ {
 		kindAtlas(c)
 	}
+	for i := 0; i < n/4+1; i++ {
+		kindCircle(c)
+	}
 	for i := 0; i < n; i++ {
 		kindPack(c)
 	}
@@ -125,6 +128,17 @@ func kindGrow(c *hlib.Ctx) {
 	}
 	c.Stat("grow:"+baseLabel(g.label), 1)
 	c.Stat(fmt.Sprintf("grow-mode%d", mode), 1)
+	if maxSize != 0 {
+		c.Stat("grow-maxsize", 1)
+	}
+	if maxArea != 0 {
+		c.Stat("grow-maxarea", 1)
+	}
+	if hasExisting {
+		c.Stat("grow-has-existing-boundary", 1)
+	}
+	c.Stat("grow-charts", len(charts))
+	c.Stat("grow-triangles", n)
 	if len(charts) == 2 && g.closed && maxSize == 0 && maxArea == 0 {
 		c.Stat("grow-sphere-split", 1)
 	}
@@ -557,6 +571,58 @@ func emitParam(c *hlib.Ctx, p *paramSetup, stretch bool, iters int) {
 func setupFor(d *model3d.Mesh, boundary *model3d.CoordMap[model2d.Coord], weights *model3d.EdgeMap[float64], bdesc, wdesc string) *paramSetup {
 	x := index(d)
 	return &paramSetup{x: x, nbrs: neighborsOf(x), boundary: boundary, weights: weights, bdesc: bdesc, wdesc: wdesc, lo: -1, hi: 1}
+}
+
+// ---------------------------------------------------------------- CircleBoundary / PNormBoundary (libm: validation)
+
+// kindCircle compares the library's arc-length placement with the model (cumulative lengths /
+// total, angle 2*pi*t); cos/sin/pow come from libm, so the comparison is `near` and only validates
+// the model of the placement.
+func kindCircle(c *hlib.Ctx) {
+	d, _ := pickDisc(c, 300)
+	x := index(d)
+	pn := 2
+	if c.Rng.Intn(2) == 0 {
+		pn = 4
+	}
+	var bm *model3d.CoordMap[model2d.Coord]
+	var seq []model3d.Coord3D
+	st := watchdog(func() {
+		if pn == 2 {
+			bm = model3d.CircleBoundary(d)
+		} else {
+			bm = model3d.PNormBoundary(d, 4)
+		}
+		seq = model3d.VerifBoundarySequence(d)
+	})
+	if st != "ok" {
+		c.Emit(fmt.Sprintf("c18 circle P %d N %s", pn, st), "ok")
+		return
+	}
+	// the start vertex is the one placed at angle 2*pi (overwritten last): the largest x
+	j, ties := 0, 0
+	for i, p := range seq {
+		if bm.Value(p).X > bm.Value(seq[j]).X {
+			j, ties = i, 0
+		} else if i != j && bm.Value(p).X == bm.Value(seq[j]).X {
+			ties++
+		}
+	}
+	if ties > 0 {
+		c.Stat("circle-skipped-ambiguous-start", 1)
+		return
+	}
+	_ = x
+	n := len(seq)
+	var b strings.Builder
+	fmt.Fprintf(&b, "c18 circle P %d N %d", pn, n)
+	for i := 0; i < n; i++ {
+		p, p1 := seq[(j+i)%n], seq[(j+i+1)%n]
+		v := bm.Value(p1)
+		fmt.Fprintf(&b, " %s %s %s", hlib.Hex(p1.Dist(p)), hlib.Hex(v.X), hlib.Hex(v.Y))
+	}
+	c.Stat(fmt.Sprintf("circle-p%d", pn), 1)
+	c.Emit(b.String(), "ok")
 }
 
 // ---------------------------------------------------------------- automatic atlas
